@@ -80,6 +80,29 @@ def handle : Sexp → Sexp
     match bool? hd, bytesList frags, bool? cl with
     | some hd, some fr, some cl => .list [respObs (respRun hd fr cl), respObs (respRun hd [fr.flatten] cl)]
     | _, _, _ => sym "bad-request"
+  | .list [.atom "respseq", hd, .list streams] =>
+    match bool? hd, streams.mapM (fun c => match c with | .list fr => bytesList fr | _ => none) with
+    | some hd, some sts =>
+      let one (sts : List (List Bytes)) : Sexp :=
+        let rs := respSeq (({ head := hd } : RespSt), []) sts
+        let go := rs.foldl (fun (acc : List Sexp × Nat × Bool) (st : RespSt × Bytes) =>
+          if acc.2.2 then acc else
+          let s := st.1
+          let fresh := (s.done.drop acc.2.1).map pRespMsg
+          -- events delivered that are not part of an ended ok message: of an errored or still running evented message
+          let extra := match s.phase with
+            | .failed => if s.isEv then pEvents s.sse.events else .list []
+            | _ => if respLiveBody s && s.isEv then pEvents s.sse.events else .list []
+          let tail := match s.phase with
+            | .escaped c => tag "escaped" [sym c]
+            | .halted => tag "idle" [ofBytes st.2, extra]
+            | .failed => tag "idle" [sym "-", extra]
+            | .status true => if st.2.isEmpty then tag "idle" [ofBytes st.2, extra] else tag "stuck" [ofBytes st.2, extra]
+            | _ => tag "stuck" [ofBytes st.2, extra]
+          (acc.1 ++ [.list [.list fresh, tail]], s.done.length, match s.phase with | .escaped _ => true | _ => false)) ([], 0, false)
+        .list go.1
+      .list [one sts, one (sts.map fun fr => [fr.flatten])]
+    | _, _ => sym "bad-request"
   | .list [.atom "sse", .list frags] =>
     match bytesList frags with
     | some fr => .list [sseObs (fr.foldl sseReader.feed ({}, [])), sseObs (sseReader.run {} fr.flatten)]
